@@ -19,6 +19,7 @@ import (
 	"go/types"
 	"os"
 	"path/filepath"
+	"strconv"
 	"strings"
 	"time"
 
@@ -276,8 +277,14 @@ type inst struct {
 	needY      bool // mentions m["y"]: only for the shapes that bind it
 }
 
-func insts() []inst {
-	x := "x"
+func insts() []inst { return instsOn("x") }
+
+// instsOn: the instances with v as the (first) capture and the other of x / y as the second
+func instsOn(x string) []inst {
+	y := "y"
+	if x == "y" {
+		y = "x"
+	}
 	op := func(path string) *filt.DExpr {
 		if path == "Value.Int" {
 			return filt.Call(path, x)
@@ -333,20 +340,20 @@ func insts() []inst {
 		{"SinkType.Is:$t", "makeRootSinkTypeIsFilter", filt.Or(filt.Call("SinkType.Is", "$$", filt.Str("$t")), filt.Sel("Pure", x)), false},
 		{"true", "", nil, false},
 		// closures with two operands: one capture absent, the other present, in both orders
-		{"Line:xy", "", filt.Bin("EQL", filt.Sel("Line", "x"), filt.Sel("Line", "y")), true},
-		{"Line:yx", "", filt.Bin("LSS", filt.Sel("Line", "y"), filt.Sel("Line", "x")), true},
-		{"Text:xy", "", filt.Bin("NEQ", filt.Sel("Text", "x"), filt.Sel("Text", "y")), true},
-		{"Text:yx", "", filt.Bin("LSS", filt.Sel("Text", "y"), filt.Sel("Text", "x")), true},
-		{"Value.Int:xy", "", filt.Bin("EQL", filt.Call("Value.Int", "x"), filt.Call("Value.Int", "y")), true},
-		{"Value.Int:yx", "", filt.Bin("GEQ", filt.Call("Value.Int", "y"), filt.Call("Value.Int", "x")), true},
-		{"Type.Size:xy", "", filt.Bin("LEQ", filt.Sel("Type.Size", "x"), filt.Sel("Type.Size", "y")), true},
-		{"Type.Size:yx", "", filt.Bin("NEQ", filt.Sel("Type.Size", "y"), filt.Sel("Type.Size", "x")), true},
-		{"Type.IdenticalTo:xy", "", filt.Call("Type.IdenticalTo", "x", filt.Index("y")), true},
-		{"Type.IdenticalTo:yx", "", filt.Call("Type.IdenticalTo", "y", filt.Index("x")), true},
-		{"Contains:x has $y", "", filt.Call("Contains", "x", filt.Str("$y")), true},
-		{"Contains:y has $x", "", filt.Call("Contains", "y", filt.Str("$x")), true},
-		{"Contains:x has f($y)", "", filt.Or(filt.Call("Contains", "x", filt.Str("f1($*y)")), filt.Call("Contains", "y", filt.Str("$x + $x"))), true},
-		{"both", "", filt.And(filt.Not(filt.Sel("Pure", "x")), filt.Or(filt.Sel("Const", "y"), filt.Call("Text.Matches", "y", filt.Str("a")))), true},
+		{"Line:xy", "", filt.Bin("EQL", filt.Sel("Line", x), filt.Sel("Line", y)), true},
+		{"Line:yx", "", filt.Bin("LSS", filt.Sel("Line", y), filt.Sel("Line", x)), true},
+		{"Text:xy", "", filt.Bin("NEQ", filt.Sel("Text", x), filt.Sel("Text", y)), true},
+		{"Text:yx", "", filt.Bin("LSS", filt.Sel("Text", y), filt.Sel("Text", x)), true},
+		{"Value.Int:xy", "", filt.Bin("EQL", filt.Call("Value.Int", x), filt.Call("Value.Int", y)), true},
+		{"Value.Int:yx", "", filt.Bin("GEQ", filt.Call("Value.Int", y), filt.Call("Value.Int", x)), true},
+		{"Type.Size:xy", "", filt.Bin("LEQ", filt.Sel("Type.Size", x), filt.Sel("Type.Size", y)), true},
+		{"Type.Size:yx", "", filt.Bin("NEQ", filt.Sel("Type.Size", y), filt.Sel("Type.Size", x)), true},
+		{"Type.IdenticalTo:xy", "", filt.Call("Type.IdenticalTo", x, filt.Index(y)), true},
+		{"Type.IdenticalTo:yx", "", filt.Call("Type.IdenticalTo", y, filt.Index(x)), true},
+		{"Contains:x has $y", "", filt.Call("Contains", x, filt.Str("$y")), true},
+		{"Contains:y has $x", "", filt.Call("Contains", y, filt.Str("$x")), true},
+		{"Contains:x has f($y)", "", filt.Or(filt.Call("Contains", x, filt.Str("f1($*y)")), filt.Call("Contains", y, filt.Str("$x + $x"))), true},
+		{"both", "", filt.And(filt.Not(filt.Sel("Pure", x)), filt.Or(filt.Sel("Const", y), filt.Call("Text.Matches", y, filt.Str("a")))), true},
 		{"true:xy", "", nil, true},
 	}
 }
@@ -372,6 +379,7 @@ type result struct {
 	Trunc    int    `json:"trunc"`
 	GoVer    string `json:"gover"`
 	Reused   bool   `json:"reused"`
+	Alias    string `json:"alias,omitempty"` // product / deep sweeps: the GODEBUG=gotypesalias mode of the child process
 	File     string `json:"file"` // disk: the analysed bytes are on disk; mem: nothing at the file's path; stale: a shorter, older version
 	LoadErr  string `json:"load_err,omitempty"`
 	Panic    string `json:"panic,omitempty"`
@@ -473,6 +481,11 @@ type ruleT struct {
 
 // run runs the engine and checks every report as it is delivered.
 func run(e *ruleguard.Engine, t *hutil.Target, trunc int, gover string, state *ruleguard.RunnerState) (n int, bads []bad, panicMsg string) {
+	return runCounted(e, t, trunc, gover, state, nil)
+}
+
+// runCounted is run that also counts the reports per rule group.
+func runCounted(e *ruleguard.Engine, t *hutil.Target, trunc int, gover string, state *ruleguard.RunnerState, perGroup map[string]int) (n int, bads []bad, panicMsg string) {
 	defer func() {
 		if r := recover(); r != nil {
 			panicMsg = fmt.Sprint(r)
@@ -484,6 +497,9 @@ func run(e *ruleguard.Engine, t *hutil.Target, trunc int, gover string, state *r
 		b := bad{}
 		if data.RuleInfo.Group != nil {
 			b.Group = data.RuleInfo.Group.Name
+			if perGroup != nil {
+				perGroup[b.Group]++
+			}
 		} else {
 			b.What = "nil rule group"
 		}
@@ -540,9 +556,25 @@ func main() {
 	deep := flag.Bool("deep", false, "child mode: run the deep sweep in this process")
 	deepFrom := flag.Int("deepfrom", 0, "child mode: first unit")
 	deepPer := flag.Int("deepper", -1, "child mode: run the sites of this instance one by one")
+	product := flag.Bool("product", false, "child mode: run the product sweep in this process (alias mode from GODEBUG)")
+	prodSkip := flag.String("prodskip", "", "child mode: batches to leave out")
+	prodBatch := flag.Int("prodbatch", -1, "child mode: run this batch rule by rule")
+	prodLo := flag.Int("prodlo", 0, "child mode: first rule of -prodbatch")
+	prodHi := flag.Int("prodhi", 0, "child mode: end of the rules of -prodbatch that run as one engine")
+	flag.BoolVar(&prodSelfCheck, "prodselfcheck", false, "child mode, development aid: compare the packed accepting engines with single-rule engines")
 	flag.Parse()
 	if *deep {
 		runDeep(*tmp, *deepPer, *deepFrom)
+		return
+	}
+	if *product {
+		skip := map[int]bool{}
+		for _, f := range strings.Split(*prodSkip, ",") {
+			if b, err := strconv.Atoi(f); err == nil {
+				skip[b] = true
+			}
+		}
+		runProduct(*tmp, *full, skip, *prodBatch, *prodLo, *prodHi)
 		return
 	}
 	enc := json.NewEncoder(os.Stdout)
@@ -714,6 +746,12 @@ func main() {
 		}
 	}
 	// recursive / cyclic / very large types under every type predicate, in child processes
-	spawnDeep(enc, *tmp, 90*time.Second)
+	for _, alias := range []string{"0", "1"} {
+		spawnDeep(enc, *tmp, alias, 90*time.Second)
+	}
+	// pattern roots of every kind x every filter operation over the catalogue target, under both alias modes
+	for _, alias := range []string{"0", "1"} {
+		spawnProduct(enc, *tmp, alias, *full, 240*time.Second)
+	}
 	enc.Encode(map[string]interface{}{"k": "meta", "rules": len(rules), "contexts": len(ctxs), "shapes": len(shapes)})
 }
